@@ -131,7 +131,13 @@ def run_generated(prop, seed, run_idx, tier, known=None):
     for n in late:
         emit({'c': 'uses', 'objs': [n]})
     # ---- make sure every declared object is used (unless deliberately not)
-    if run.eager_ok and rng.random() >= profile.get('p_unused', 0.03):
+    leave_unused = rng.random() < profile.get('p_unused', 0.03)
+    if run.eager_ok and leave_unused and run.lc.unused() and rng.random() < 0.6:
+        # the unused object is mentioned only by a malformed (rejected) call: that is not a use
+        c = g.bad_args_call(run.lc.unused()[0])
+        if c is not None:
+            emit(c)
+    if run.eager_ok and not leave_unused:
         for n in list(run.lc.unused()):
             for _ in range(8):
                 c = g.step_using(n)
